@@ -76,8 +76,8 @@ CHECKS = {
         "assumptions": A_COMMON + A_STORE + A_BANK,
     },
     "C11": {
-        "pregen": ["python3", "/verif/tools/gen_c11.py"],
-        "covers_file": "/verif/.cache/c11_covers.json",
+        "pregen": ["python3", "tools/gen_c11.py"],
+        "covers_file": ".cache/c11_covers.json",
         "groups": [{"pkgs": "./x/storage/types,./x/rns/types,./x/filetree/types,./x/oracle/types,./x/notifications/types", "fns": ["VH_C11_*"], "opts": {"j": 8, "w": 2}}],
         "covers": [],
         "assumptions": A_COMMON + ["A-B32", "the message types are the request types of each custom module's MsgServer interface (enumerated from x/*/types/tx.pb.go at run time)"],
